@@ -20,7 +20,10 @@ Inductive case :=
     [tab64] / [tab32]: libm [powf] as recorded by the harness *)
 | CSpat (k cfg inp lst em : list Z) (i n : Z) (pre post : list Z) (tab64 tab32 : list (Z * Z * Z))
 (** [Info::listener_distance] seen by a sound on the track: [lst] as above, [tp] track position *)
-| CDist (lst tp : list Z).
+| CDist (lst tp : list Z)
+(** a spatial track nested in a spatial track (fixed 0 dB volumes): the constant input passes
+    the child's stage (configuration 1, its own listener and emitter), then the parent's (2) *)
+| CNest (k cfg1 lst1 em1 cfg2 lst2 em2 inp : list Z) (i n : Z) (tab64 tab32 : list (Z * Z * Z)).
 
 Definition getz (l : list Z) (i : nat) : Z := nth i l 0.
 Definition getf (l : list Z) (i : nat) : f32 := f32_of_bits (getz l i).
@@ -71,6 +74,21 @@ Definition run_spat (k cfg inp lst em : list Z) (i n : Z) (pre post : list Z) (t
   let x4 := zero_plus (apply_volume p10 qa qb t1 x3) in
   Ok (out_clamp (fst x4), out_clamp (snd x4)).
 
+Definition run_nest (k cfg1 lst1 em1 cfg2 lst2 em2 inp : list Z) (i n : Z) (tab64 tab32 : list (Z * Z * Z))
+  : outcome (f32 * f32) :=
+  let t := f64_to_f32 (div64 (Z64 i) (Z64 n)) in
+  let t1 := f64_to_f32 (div64 (Z64 (i + 1)) (Z64 n)) in
+  let p10 := powf10_tab tab32 in
+  let stage cfg lst em x :=
+    let! y := spatial_frame f32_to_f64 f64_to_f32 p10 (ease64 tab64 (getz cfg 3) (getz cfg 4))
+                EAR_DISTANCE32 (getf k 0) (getf k 1) (getf k 2) (getf k 3)
+                (getf cfg 0) (getf cfg 1) (getz cfg 2 =? 1) (zero_plus x) (mk_listener lst) (mk_emitter em) t in
+    Ok (apply_volume p10 (Z32 0) (Z32 0) t1 y) in
+  let! x1 := stage cfg1 lst1 em1 (getf inp 0, getf inp 1) in
+  let! x2 := stage cfg2 lst2 em2 x1 in
+  let x3 := zero_plus x2 in
+  Ok (out_clamp (fst x3), out_clamp (snd x3)).
+
 Definition run (c : case) : list Z :=
   match c with
   | CSpat k cfg inp lst em i n pre post tab64 tab32 =>
@@ -81,4 +99,7 @@ Definition run (c : case) : list Z :=
       | None => [0]
       | Some d => [1; bits_of_f32 d]
       end
+  | CNest k cfg1 lst1 em1 cfg2 lst2 em2 inp i n tab64 tab32 =>
+      encode_outcome (fun fr : f32 * f32 => [bits_of_f32 (fst fr); bits_of_f32 (snd fr)])
+                     (run_nest k cfg1 lst1 em1 cfg2 lst2 em2 inp i n tab64 tab32)
   end.
